@@ -72,6 +72,7 @@ type variant struct {
 	lateServe    bool // Serve is started by an explicit step (cancel may come before it)
 	withH2       bool
 	doubleCancel bool
+	acceptGate   bool // also park the internal HTTP/1.1 server's accept loop between taking a connection and returning it
 }
 
 func runOne(t *testing.T, v variant, c *mc.Chooser) (out mc.Outcome) {
@@ -81,11 +82,18 @@ func runOne(t *testing.T, v variant, c *mc.Chooser) (out mc.Outcome) {
 	}
 	ev.Journal("variant=%s prefix=%v", v.name, c.Prefix())
 	res := bubble.Run(t, func() {
-		gates := bubble.NewGates("proxyserver.Serve.beforeInShutdown", "proxyserver.Serve.beforeShutdown", "proxyserver.Serve.beforeLnClose",
-			"proxyserver.serveConn.beforeSend", "memnet.Listener.Close.after")
+		points := []string{"proxyserver.Serve.beforeInShutdown", "proxyserver.Serve.beforeShutdown", "proxyserver.Serve.beforeLnClose",
+			"proxyserver.serveConn.beforeSend", "memnet.Listener.Close.after"}
+		if v.acceptGate {
+			// Only in the variant made for it: with many connections a parked accept loop, a pending hand-off and the
+			// cancelled context can become ready in the same select, which Go resolves randomly - nondeterminism the
+			// explorer cannot own. With the two HTTP/1.1 clients of this variant no select ever has two ready cases
+			// (a sender that finds the context cancelled never finds a receiver, and vice versa); the explorer's
+			// re-execution self-check would report it otherwise.
+			points = append(points, "hack.ChannelListener.accepted")
+		}
+		gates := bubble.NewGates(points...)
 		gates.HookMemnet()
-		// (no gate in ChannelListener.Accept here: parking the h1 accept loop lets a pending hand-off and the cancelled
-		// context become ready in the same select, which Go resolves randomly - nondeterminism the explorer cannot own)
 		defer gates.Uninstall()
 		w := &world{holding: map[string]chan struct{}{}, entered: map[string]bool{}, released: map[string]bool{}, afterCancelPaths: map[string]bool{}}
 		st := bubble.NewStack(bubble.StackOpts{HandshakeTimeout: 10 * time.Second, NoServe: v.lateServe})
@@ -115,6 +123,18 @@ func runOne(t *testing.T, v variant, c *mc.Chooser) (out mc.Outcome) {
 				{Name: "request /hold-h1", Do: func() { w3.SendH1(bubble.Req{Path: "/hold-h1", Host: "localhost"}) }},
 			}},
 		)
+		if v.acceptGate {
+			// The two clients only connect. A request already waiting on a connection at the moment the parked
+			// accept loop lets it through would be served by a new goroutine in the same instant in which
+			// http.Server.Shutdown, released by the same Accept returning, looks for idle connections - two runnable
+			// goroutines of net/http whose order the explorer does not own. (In-flight and idle-after-exchange
+			// connections are the business of the other variants.)
+			for _, a := range actors {
+				if a.Name == "w2" || a.Name == "w3" {
+					a.Steps = a.Steps[:1]
+				}
+			}
+		}
 		if v.withH2 {
 			actors = append(actors, &bubble.Actor{Name: "w4", Steps: []bubble.Step{
 				{Name: "connect h2 + held stream", Do: func() { w4 = st.Connect("w4", nil, helloH2) }},
@@ -288,7 +308,7 @@ func TestCheck(t *testing.T) {
 		bound, budget = 4, 40*time.Minute
 	}
 	deadline := time.Now().Add(budget)
-	variants := []variant{{"h1+h2", false, true, true}, {"late-serve", true, false, false}, {"h1-only", false, false, true}}
+	variants := []variant{{"h1+h2", false, true, true, false}, {"late-serve", true, false, false, false}, {"h1-only", false, false, true, false}, {"h1-handoff", false, false, false, true}}
 	rep.Info["rule"] = "workload actors (stalled handshake, idle h1, h1 exchange in flight, h2 stream in flight + idle h2, late client, clock) with the cancel step moved to every position by deviations; deviation-bounded interleavings of steps and gates (cancel watcher, channel listener, serveConn hand-off)"
 	rep.Info["max_deviation_bound_completed"] = bound
 	rep.Assume("fake clock; time is observed at 2 s granularity because net/http's Shutdown polls with a jittered interval",
@@ -309,6 +329,7 @@ func TestCheck(t *testing.T) {
 		}
 		return
 	}
+	binarySignals(t, rep, shard, of)
 	for _, v := range variants {
 		e := &mc.Explorer{Bound: bound, Shard: shard, Of: of, Deadline: deadline}
 		func() {
